@@ -280,6 +280,16 @@ func init() {
 			if i%5 == 4 {
 				return History{Ops: g.watchLife(i / 5)}
 			}
+			if i%10 == 3 {
+				// every queued command takes effect where the queued SELECTs before it have led: flushes included
+				ops = append(ops, mkOp(1, "SET", "k0", "zero"), mkOp(1, "SELECT", "1"), mkOp(1, "SET", "k1", "one"), mkOp(1, "RPUSH", "l1", "a"), mkOp(1, "SELECT", g.pick("0", "0", "2")))
+				ops = append(ops, mkOp(1, "MULTI"), mkOp(1, "SELECT", "1"), mkOp(1, g.pick("FLUSHALL", "FLUSHALL", "FLUSHDB")))
+				ops = append(ops, mkOp(1, "DBSIZE"), mkOp(1, "SELECT", "0"), mkOp(1, "DBSIZE"), mkOp(1, "GET", "k0"), mkOp(1, g.pick("EXEC", "EXEC", "EXEC", "DISCARD")))
+				for _, db := range []string{"0", "1", "2"} {
+					ops = append(ops, mkOp(2, "SELECT", db), mkOp(2, "DBSIZE"), mkOp(2, "KEYS", "*"))
+				}
+				return History{Ops: ops}
+			}
 			ops = append(ops, g.seedOps(1)...)
 			ops = append(ops, mkOp(1, "SET", "kstr", "abc"))
 			if i%5 < 2 {
@@ -508,8 +518,10 @@ func init() {
 					ops = append(ops, mkOp(c, g.kw("dbsize")))
 				case x < 36:
 					ops = append(ops, mkOp(c, g.kw("client"), g.kw("setname"), g.pick("alice", "bob", "x y", "")))
-				case x < 40:
+				case x < 38:
 					ops = append(ops, mkOp(c, g.kw("client"), g.kw("getname")))
+				case x < 40:
+					ops = append(ops, mkOp(c, g.kw("client"), g.kw(g.pick("info", "list"))))
 				case x < 44:
 					ops = append(ops, mkOp(c, g.kw("multi")))
 				case x < 48:
@@ -692,8 +704,8 @@ func init() {
 						mkOp(1, "SCAN", "0", "MATCH", g.pick("k[a-c]", "k[a-d]", "k[b-d]*", "[j-k]?", "k[^a-b]"), "COUNT", "1000"), mkOp(1, "HSCAN", k, "0", "MATCH", g.pick("f[1-3]", "f[1-4]", "f[2-4]", "[e-f]*"), "COUNT", "1000"),
 						mkOp(1, "SSCAN", k, "0", "MATCH", g.pick("[a-c]", "[a-d]", "[b-d]", "[^a-c]"), "COUNT", "1000"), mkOp(1, "KEYS", g.pick("k[a-c]", "k[a-d]", "k[b-d]")),
 						mkOp(1, "SETBIT", k, g.pick("3", "100", "1000"), "1"), mkOp(1, "BITFIELD", k, "SET", "u8", g.pick("0", "64", "800"), "7"), mkOp(1, "BITFIELD", k, "INCRBY", "u8", g.pick("8", "400"), "1"),
-						mkOp(1, "SETRANGE", k, g.pick("0", "50"), "zz"), mkOp(1, "APPEND", k, "tail"), mkOp(1, "LSET", k, "0", "z"), mkOp(1, "HSET", k, "f1", "w"), mkOp(1, "SADD", k, "zz"), mkOp(1, "INCRBY", k, "3"),
-						mkOp(1, "SINTERCARD", "1", k), mkOp(1, "HSTRLEN", k, "f1"), mkOp(1, "LPOS", k, "a"), mkOp(1, "SMISMEMBER", k, "a", "b"), mkOp(1, "HMGET", k, "f1", "f2")}[g.r.Intn(29)]
+						mkOp(1, "SETRANGE", k, g.pick("0", "50"), "zz"), mkOp(1, "APPEND", k, "tail"), mkOp(1, "LSET", k, "0", "z"), mkOp(1, "HSET", k, "f1", "w"), mkOp(1, "SADD", k, "zz"), mkOp(1, "INCRBY", k, "3"), mkOp(1, "SET", k, "kept", g.kw("KEEPTTL")), mkOp(1, "SET", k, "kept", "XX", "KEEPTTL"), mkOp(1, "GETEX", k), mkOp(1, "GETSET", k, "gs"),
+						mkOp(1, "SINTERCARD", "1", k), mkOp(1, "HSTRLEN", k, "f1"), mkOp(1, "LPOS", k, "a"), mkOp(1, "SMISMEMBER", k, "a", "b"), mkOp(1, "HMGET", k, "f1", "f2")}[g.r.Intn(33)]
 				}
 				if g.chance(0.12) {
 					// SORT reads its source, its weights and its GET targets through the same expiry
